@@ -334,6 +334,7 @@ def _run_history(case):
     d0 = digest(shared)
     worst = 0.0
     n = 0
+    later = []
     for j in range(case["ncalc"]):
         kind = scat.ALL_KINDS[int(rng.integers(0, len(scat.ALL_KINDS)))]
         cfg = scat.gen_config(rng, kind)
@@ -347,11 +348,31 @@ def _run_history(case):
             b = _holo(fresh_t, cfg, s, th)
             worst = max(worst, relmax(a.values, b.values))
             n += 1
+            # the same particle again on the shared detector with ONE optical input overridden in the call (a series at several
+            # wavelengths); compared further down, after other calculations, with the same locations given as explicit points
+            import copy
+            cfg2 = copy.deepcopy(cfg)
+            which = ["illum_wavelen", "medium_index"][j % 2]
+            cfg2["optics"][which] = cfg2["optics"][which] * [0.83, 1.04][j % 2]
+            if shared is target:
+                later.append((cfg2, _holo(shared, cfg2, s, th)))
         except Exception as e:
             from holopy.scattering.errors import MultisphereFailure, TmatrixFailure
             if not isinstance(e, (MultisphereFailure, TmatrixFailure)):
                 raise
-    return {"resid": {"shared_vs_fresh@any": fnum(worst)}, "flags": {"shared_detector_untouched": bool(digest(shared) == d0)}, "hptp": 1.0, "npix": n}
+    worst_later = 0.0
+    for cfg2, grid_val in reversed(later):
+        try:
+            s2 = scat.build_scatterer(cfg2["scat"]); th2 = scat.build_theory(cfg2["theory"])
+            pts = scat.build_detector(scat.grid_to_points(det_spec))
+            pv = _holo(pts, cfg2, s2, th2)
+            worst_later = max(worst_later, relmax(grid_val.transpose("x", "y", "z").values.ravel(), pv.values.ravel()))
+        except Exception as e:
+            from holopy.scattering.errors import MultisphereFailure, TmatrixFailure
+            if not isinstance(e, (MultisphereFailure, TmatrixFailure)):
+                raise
+    return {"resid": {"shared_vs_fresh@any": fnum(worst), "series_on_shared_detector_vs_points@any": fnum(worst_later)},
+            "flags": {"shared_detector_untouched": bool(digest(shared) == d0)}, "hptp": 1.0, "npix": n}
 
 
 # ------------------------------------------------------------------ oracle
@@ -360,7 +381,7 @@ def judge(case, obs):
     out = []
     for k, v in obs["resid"].items():
         base, t = k.split("@")
-        tol = 0.0 if base == "shared_vs_fresh" else (1e-9 if t in ("MieLens", "AberratedMieLens") else 1e-12)
+        tol = 0.0 if base == "shared_vs_fresh" else (1e-9 if t in ("MieLens", "AberratedMieLens") or base == "series_on_shared_detector_vs_points" else 1e-12)
         if not v <= tol:
             out.append({"mech": "%s.%s" % (base, t), "detail": "%s=%.3e > %.0e; kind=%s det=%s" % (k, v, tol, case.get("ckind"), case.get("cfg", {}).get("det"))})
     for k, v in obs["flags"].items():
